@@ -14,4 +14,6 @@ echo "rc=$rc $((t1-t0))s"
 grep '^VIOLATION\|^KNOWN-FINDING\|INFRA' /tmp/seedtest_$$.log | cut -c1-300 | head -8
 git -C /repo worktree remove --force $W
 rm -f /tmp/seedtest_$$.log
+# the run above regenerated lean/PySMT/Gen from the patched worktree: restore it from /repo
+./check $P --regen-only > /dev/null 2>&1
 exit $rc
